@@ -298,3 +298,28 @@ class Norm:
 
     def canon(self, e):
         return ir.canon(self.norm(e))
+
+
+def unconditional_calls(e):
+    """call expressions of e that are evaluated whenever e is evaluated (not inside an arm of ?: or the
+    right operand of && / ||)"""
+    out = []
+
+    def visit(x, cond):
+        if not ir.is_expr(x):
+            return
+        if x[0] == 'cond':
+            visit(x[1], cond)
+            visit(x[2], True)
+            visit(x[3], True)
+            return
+        if x[0] == 'bin' and x[1] in ('&&', '||'):
+            visit(x[2], cond)
+            visit(x[3], True)
+            return
+        if x[0] == 'call' and not cond:
+            out.append(x)
+        for c in ir.children(x):
+            visit(c, cond)
+    visit(e, False)
+    return out
